@@ -13,6 +13,10 @@
 #include <opm/input/eclipse/Schedule/Group/GConSale.hpp>
 #include <opm/input/eclipse/Schedule/Group/GConSump.hpp>
 #include <opm/input/eclipse/Schedule/Group/GuideRateConfig.hpp>
+#include <set>
+#include <algorithm>
+#include <opm/input/eclipse/Schedule/Well/WListManager.hpp>
+#include <opm/input/eclipse/Schedule/Well/WList.hpp>
 #include <opm/input/eclipse/Schedule/MSW/WellSegments.hpp>
 #include <opm/input/eclipse/Schedule/MSW/SICD.hpp>
 #include <opm/input/eclipse/Schedule/MSW/AICD.hpp>
@@ -246,6 +250,26 @@ inline void rst_dump_state(const Opm::Schedule& sched, int step, const Opm::Summ
     for (const auto& g : st.group_order().names()) { out.key(g); rd_group(st.groups(g), smry, out); }
     out.end_obj();
     out.key("wlists").raw(serial_dump(st.wlist_manager()));
+    // membership only: which wells a list holds (sorted, empty names dropped), for every list that some well names
+    {
+        const auto& wlm = st.wlist_manager();
+        std::set<std::string> lists;
+        for (const auto& w : st.well_order().names())
+            if (wlm.hasWList(w))
+                for (const auto& l : wlm.getWListNames(w))
+                    if (!l.empty() && wlm.hasList(l)) lists.insert(l);
+        out.key("wlist_members").obj();
+        for (const auto& l : lists) {
+            auto ws = wlm.getList(l).wells();
+            ws.erase(std::remove(ws.begin(), ws.end(), std::string{}), ws.end());
+            if (ws.empty()) continue;       // an emptied list and no list are the same membership
+            std::sort(ws.begin(), ws.end());
+            out.key(l).arr();
+            for (const auto& w : ws) out.str(w);
+            out.end_arr();
+        }
+        out.end_obj();
+    }
     // UDQ configuration
     {
         const auto& udq = st.udq();
